@@ -852,6 +852,11 @@ pub fn subscript(
                 }
                 _ => unreachable!(),
             };
+            #[cfg(feature = "logical_indexing")]
+            if let Err(err) = validate_logical_index(val, &fxn_input[1..]) {
+                plan.borrow_mut().pop();
+                return Err(err);
+            }
             let plan_brrw = plan.borrow();
             let mut new_fxn = &plan_brrw.last().unwrap();
             new_fxn.solve();
@@ -860,6 +865,35 @@ pub fn subscript(
         }
         _ => unreachable!(),
     }
+}
+
+// A logical index must have exactly one entry per element of the dimension
+// it indexes (all elements for a single index, rows/columns for two).
+#[cfg(feature = "logical_indexing")]
+pub fn validate_logical_index(source: &Value, ixes: &[Value]) -> MResult<()> {
+    if !matches!(source.deref_kind(), ValueKind::Matrix(..)) {
+        return Ok(());
+    }
+    let shape = source.shape();
+    let dims: Vec<usize> = match ixes.len() {
+        1 => vec![shape[0] * shape[1]],
+        2 => vec![shape[0], shape[1]],
+        _ => return Ok(()),
+    };
+    for (ix, dim) in ixes.iter().zip(dims.iter()) {
+        let mask_len = match ix {
+            Value::MatrixBool(mask) => mask.shape().iter().product::<usize>(),
+            _ => continue,
+        };
+        if mask_len != *dim {
+            return Err(MechError::new(
+                DimensionMismatch { dims: vec![mask_len, *dim] },
+                None,
+            )
+            .with_compiler_loc());
+        }
+    }
+    Ok(())
 }
 
 #[cfg(feature = "symbol_table")]
